@@ -545,3 +545,104 @@ def coq_crosscheck_sym(cases, tag):
         except OSError:
             pass
     return rc == 0, n, out[-1500:]
+
+
+# ------------------------------------------------------------------ indexer slice (OutlineIndex.v) vs the real op log
+RELEVANT_ADD = {"AR", "AAD", "ATA", "ARF", "ADS", "AMC"}
+RELEVANT_PAIR = {"RTA": "RM", "RF": "RM", "RP": "RM", "DAD": "DSM", "MTA": "MCM"}
+
+
+def relevant_ops(tokens):
+    """projection of an encoded op list onto the ops that decide the outline: the add_* of records / template arguments /
+    fields / defsets / multiclasses, and the `x_mut` + `x.add_*` pairs of template arguments, fields, record parents and
+    defset members (a `*_mut` line that is not directly followed by such a call comes from add_reference and is dropped)"""
+    out = []
+    for i, t in enumerate(tokens):
+        k = t[0]
+        if k in RELEVANT_ADD:
+            out.append(t)
+        elif k in RELEVANT_PAIR and i > 0 and tokens[i - 1][0] == RELEVANT_PAIR[k]:
+            out.append(tokens[i - 1])
+            out.append(t)
+    return out
+
+
+FILE_POS = {"AR": 3, "AAD": 2, "ATA": 3, "ARF": 3, "ADS": 3, "AMC": 2}
+TYPE_POS = {"ATA": 2, "ARF": 2, "ADS": 2}
+
+
+def coreast(bindir, workspaces, timeout=900, chunk=60):
+    out = []
+    for ch in vlib.chunked(workspaces, chunk):
+        out += synlib.run_json_robust(os.path.join(bindir, "coreast"), [], ch, timeout)
+    return out
+
+
+def oix_compare(exe, items):
+    """items: list of (workspace, outdump object, coreast object).  Runs the indexer-slice model on the typed AST of the real
+    parse trees and compares (1) its op sequence with the projection of the real op log (file numbers mapped through the
+    paths; a type the final state no longer shows is a wildcard), (2) the outline it determines with the real handler's.
+    Returns (disagreements, stats)."""
+    stats = {"oix_workspaces": 0, "oix_noncore": 0, "oix_ops": 0, "oix_outline_files": 0}
+    lines, metas = [], []
+    for ws, d, ca in items:
+        if not isinstance(d, dict) or not d.get("oplog") and d.get("oplog") != []:
+            continue
+        if not isinstance(ca, dict) or not ca.get("ast"):
+            stats["oix_noncore"] += 1
+            continue
+        lines.append(ca["ast"])
+        metas.append((ws, d, ca))
+    outs = model_lines(exe, "oix", lines)
+    bad = []
+    for (ws, d, ca), o in zip(metas, outs):
+        base = {"files": ws["files"], "root": ws["root"]}
+        stats["oix_workspaces"] += 1
+        try:
+            r = json.loads(o)
+        except Exception:
+            bad.append(dict(base, kind="oix-model-crash", model=o[:300], observed=None))
+            continue
+        # coreast file number -> real file id
+        num2real = {}
+        for k, path in enumerate(ca["files"]):
+            if path in d["fids"]:
+                num2real[str(k)] = str(d["fids"][path])
+        real = relevant_ops([encode_op(l, d["types"]) for l in d["oplog"]])
+        model = [t.split(" ") for t in r["ops"]]
+        for t in model:
+            p = FILE_POS.get(t[0])
+            if p is not None:
+                t[p] = num2real.get(t[p], "?" + t[p])
+        stats["oix_ops"] += len(real)
+        ok = len(real) == len(model) and not r["bad"]
+        first = None
+        if ok:
+            for a, b in zip(real, model):
+                a2, b2 = list(a), list(b)
+                tp = TYPE_POS.get(a[0])
+                if tp is not None and a[tp] == "-":
+                    a2[tp] = b2[tp] = "*"          # type not observable in the final state
+                if a2 != b2:
+                    ok, first = False, (a, b)
+                    break
+        if not ok:
+            bad.append(dict(base, kind="oix-ops", model={"bad": r["bad"], "n": len(model), "first_difference": first and first[1]},
+                            observed={"n": len(real), "first_difference": first and first[0]}))
+            continue
+        for k, path in enumerate(ca["files"]):
+            if path not in d["symbols"]:
+                continue
+            stats["oix_outline_files"] += 1
+            mo = r["outline"][k]
+            mo = mo if isinstance(mo, dict) else model_outline(mo)
+            ro = real_outline_typ(d["symbols"][path])
+
+            def strip_typ(o_):
+                return None if o_ is None else [{"name": e["name"], "range": e["range"], "kind": e["kind"],
+                                                 "children": strip_typ(e["children"])} for e in o_]
+            # the slice leaves variables / defms out: a file whose only global symbols are of those kinds has a list in
+            # the real state (outline []) and none in the slice's (outline None): None and [] are identified here
+            if isinstance(mo, dict) or (strip_typ(mo) or []) != (strip_typ(ro) or []):
+                bad.append(dict(base, kind="oix-outline", file=path, model=mo, observed=ro))
+    return bad, stats
